@@ -84,12 +84,15 @@ pub fn gen_reader_benign(rng: &mut Rng, len: usize) -> ReaderCfg {
         early_eof: None,
         eintr_at_eof: if rng.chance(1, 6) { (if rng.chance(1, 20) { rng.range(8, 19) } else if rng.chance(1, 5) { rng.range(4, 7) } else { rng.range(1, 3) }) as u8 } else { 0 },
         err_after_eof: None,
+        open_err: None,
     }
 }
 
 /// Adds one destructive stream fault to a reader.
 pub fn add_reader_fault(rng: &mut Rng, cfg: &mut ReaderCfg, len: usize, hot: &[usize]) {
-    if rng.chance(1, 8) {
+    if cfg.stack == RStack::Wrapper && FILE_SEAM && rng.chance(1, 6) {
+        cfg.open_err = Some(*rng.pick(&OPEN_ERR_KINDS));
+    } else if rng.chance(1, 8) {
         cfg.err_after_eof = Some(*rng.pick(&READ_ERR_KINDS));
     } else if rng.chance(2, 3) {
         let at = if rng.chance(3, 4) {
@@ -133,11 +136,14 @@ pub fn gen_writer_benign(rng: &mut Rng, len: usize) -> WriterCfg {
         },
         err: None,
         flush_err: None,
+        create_err: None,
     }
 }
 
 pub fn add_writer_fault(rng: &mut Rng, cfg: &mut WriterCfg, len: usize, hot: &[usize]) {
-    if rng.chance(4, 5) {
+    if cfg.stack == WStack::Wrapper && FILE_SEAM && rng.chance(1, 6) {
+        cfg.create_err = Some(*rng.pick(&OPEN_ERR_KINDS));
+    } else if rng.chance(4, 5) {
         let at = if rng.chance(3, 4) {
             At::Byte(hot_offset(rng, len, hot) as u32)
         } else if rng.chance(1, 2) {
